@@ -24,5 +24,6 @@ class TrashDirReader:
     def list_trashinfo(self, path):
         info_dir = os.path.join(path, 'info')
         for entry in self.dir_reader.entries_if_dir_exists(info_dir):
-            if entry.endswith('.trashinfo') and entry != '.trashinfo':
+            if (entry.endswith('.trashinfo') and
+                    entry[:-len('.trashinfo')] not in ('', '.', '..')):
                 yield os.path.join(info_dir, entry)
